@@ -385,6 +385,37 @@ pub fn run(ctx: &mut Ctx) {
         }
     }
 
+    // ---- C2: the capture clock steps back: the second segment is stamped *before* its reference
+    // (by 1 ms .. 11 min) while its TSval advanced steadily.  A negative interval is not an
+    // interval between 25 ms and 10 minutes: nothing is reported and the endpoint is not
+    // re-evaluated by a third, well-behaved segment
+    for step_back in [1u64, 24, 25, 26, 99, 100, 1000, 5000, 60_000, 599_999, 600_000, 600_001, 660_000] {
+        for hz in [1u64, 10, 100, 250, 1000, 1500] {
+            for variant in 0..3u64 {
+                idx += 1;
+                if !ctx.mine(idx) {
+                    continue;
+                }
+                let ep = eps(idx, variant == 2, 44000 + (idx % 1000) as u16, 443);
+                let fc = variant != 1;
+                let (fl0, fl1) = if fc { (flags::SYN, flags::ACK) } else { (flags::SYN | flags::ACK, flags::ACK | flags::PSH) };
+                let t_ref = T0 + 700_000;
+                let base = 0x1000_0000u32;
+                let ticks = (hz * step_back / 1000).max(5) as u32;
+                let e = Episode {
+                    ep,
+                    segs: vec![
+                        Seg { at_ms: t_ref, from_client: fc, flags: fl0, tsval: base },
+                        Seg { at_ms: t_ref - step_back, from_client: fc, flags: fl1, tsval: base.wrapping_add(ticks) },
+                        Seg { at_ms: t_ref + 2000, from_client: fc, flags: fl1, tsval: base.wrapping_add((hz * 2) as u32 + 7) },
+                    ],
+                    tag: "arrival-clock-steps-back",
+                };
+                run_episode(ctx, &tcp, &e, Link::Ethernet);
+            }
+        }
+    }
+
     // ---- D: interleaved client/server segments with independent clocks, failures on one side only
     let n = ctx.scale(1_500_000, 12_000_000, 20) / ctx.nshards as u64 + 1;
     let mut r: Rng = ctx.rng(19);
